@@ -149,6 +149,21 @@ mod native_inst {
     ninst!(r_clone_eq_n32_m8 = ob_clone_eq<32, 8>);
     ninst!(r_clone_eq_n32_m32 = ob_clone_eq<32, 32>);
     ninst!(r_clone_eq_n64_m16 = ob_clone_eq<64, 16>);
+    ninst!(r_panic_n4 = ob_panic<4>);
+    ninst!(r_panic_n8 = ob_panic<8>);
+    ninst!(r_panic_n16 = ob_panic<16>);
+    ninst!(r_panic_n32 = ob_panic<32>);
+    ninst!(r_panic_n64 = ob_panic<64>);
+    ninst!(r_panic_nodrop_n4 = ob_panic_nodrop<4>);
+    ninst!(r_panic_nodrop_n8 = ob_panic_nodrop<8>);
+    ninst!(r_panic_nodrop_n16 = ob_panic_nodrop<16>);
+    ninst!(r_panic_nodrop_n32 = ob_panic_nodrop<32>);
+    ninst!(r_panic_nodrop_n64 = ob_panic_nodrop<64>);
+    ninst!(r_unlawful_n4 = ob_unlawful<4>);
+    ninst!(r_unlawful_n8 = ob_unlawful<8>);
+    ninst!(r_unlawful_n16 = ob_unlawful<16>);
+    ninst!(r_unlawful_n32 = ob_unlawful<32>);
+    ninst!(r_unlawful_n64 = ob_unlawful<64>);
     ninst!(r_map_lookup_n4 = ob_map_lookup<4>);
     ninst!(r_map_lookup_n8 = ob_map_lookup<8>);
     ninst!(r_map_lookup_n16 = ob_map_lookup<16>);
@@ -217,6 +232,21 @@ harnesses! {
     #[kani::unwind(18)] h_iter_n16,
     }
     native {
+        r_panic_n4,
+        r_panic_n8,
+        r_panic_n16,
+        r_panic_n32,
+        r_panic_n64,
+        r_panic_nodrop_n4,
+        r_panic_nodrop_n8,
+        r_panic_nodrop_n16,
+        r_panic_nodrop_n32,
+        r_panic_nodrop_n64,
+        r_unlawful_n4,
+        r_unlawful_n8,
+        r_unlawful_n16,
+        r_unlawful_n32,
+        r_unlawful_n64,
         r_life_n4,
         r_life_n8,
         r_life_n16,
